@@ -993,6 +993,9 @@ class Executor(object):
         sub.dead_paths = self.dead_paths
         sub.isinst_cands = self.isinst_cands
         sub.pinned = self.pinned
+        sub.never_written = getattr(self, "never_written", None)
+        sub.root_key = getattr(self, "root_key", key)
+        sub.root_props = getattr(self, "root_props", ())
         bound = CT.bind_arguments(fn, args, kwargs, self)
         s0 = st.copy()
         saved_locals = s0.locals
@@ -1257,6 +1260,13 @@ class Executor(object):
         mon = getattr(self.env, "monitor", None)
         if mon is not None:
             mon.on_write(self, st, obj, attr)
+        nw = getattr(self, "never_written", None)
+        if nw and attr in nw and z3.is_expr(obj):
+            # a frame clause compares the final heap with the initial one; a field that other threads read meanwhile must
+            # not even be written and restored: every write to it has to go to an object allocated during this call
+            st.obligations.append(Obligation("%s/no-transient-write[%s]" % (self.root_key, attr), st.hyps(),
+                                             Val.ref(obj) >= ALLOC0, st.sig, "frame", "no-transient-write " + attr,
+                                             self.root_props))
 
     def reify(self, st, v):
         """a Val standing for a python-level callable / class stored into the heap."""
